@@ -201,6 +201,15 @@ def execute(plan, prop, trace):
         e = bc32encode(c)
         if bc32decode(e) != c:
             fail("A3", "bc32_roundtrip", f"bc32decode(bc32encode(x)) != x for len {len(c)}")
+        # the all-upper-case rendering of the same text (alphanumeric QR codes): whether a decoder tolerates it is not part of the
+        # statement, but it must never decode to other data
+        try:
+            up = bc32decode(e.upper())
+        except Exception:
+            up = None
+        tr.probe("bc32_upper_case_" + ("decoded" if up is not None else "refused"))
+        if up is not None and up != c:
+            fail("A3", "bc32_upper_case_other_data", f"bc32decode of the upper-case text of a {len(c)}-byte string returned other data")
         tr.probe("cbor_class_" + ("tiny" if len(p) <= 23 else "u8" if len(p) <= 255 else "u16" if len(p) <= 65535 else "u32"))
         if len(p) in (23, 24, 255, 256, 65535, 65536):
             tr.probe(f"cbor_boundary_{len(p)}")
